@@ -24,6 +24,7 @@ import (
 	bgcloneset "github.com/openkruise/rollouts/pkg/controller/batchrelease/control/bluegreenstyle/cloneset"
 	bgdeployment "github.com/openkruise/rollouts/pkg/controller/batchrelease/control/bluegreenstyle/deployment"
 	partcloneset "github.com/openkruise/rollouts/pkg/controller/batchrelease/control/partitionstyle/cloneset"
+	canarydeployment "github.com/openkruise/rollouts/pkg/controller/batchrelease/control/canarystyle/deployment"
 	partdaemonset "github.com/openkruise/rollouts/pkg/controller/batchrelease/control/partitionstyle/daemonset"
 	partdeployment "github.com/openkruise/rollouts/pkg/controller/batchrelease/control/partitionstyle/deployment"
 	partstatefulset "github.com/openkruise/rollouts/pkg/controller/batchrelease/control/partitionstyle/statefulset"
@@ -40,6 +41,9 @@ type ArithInput struct {
 	Cur    int    `json:"cur"`
 	NoNeed *int   `json:"noneed,omitempty"`
 	Knob   *IOS   `json:"knob,omitempty"`
+	// status.replicas of the workload: equal to N in the steady state, different while a scale is in flight. Not an input of
+	// the model: the arithmetic is about the configured size
+	StatusN *int `json:"status_n,omitempty"`
 }
 
 type ArithObs struct {
@@ -64,7 +68,7 @@ func (arithEngine) Decode(raw json.RawMessage) (any, error) {
 	return in, err
 }
 
-var arithKinds = []string{"cloneset", "sts-unordered", "sts-ordered", "daemon", "deploy-part", "bg-deploy", "bg-clone"}
+var arithKinds = []string{"cloneset", "sts-unordered", "sts-ordered", "daemon", "deploy-part", "bg-deploy", "bg-clone", "deploy-canary"}
 
 func (arithEngine) Gen(r *rand.Rand, idx int, tier string) any {
 	in := ArithInput{Kind: arithKinds[idx%len(arithKinds)]}
@@ -142,6 +146,25 @@ func (arithEngine) Gen(r *rand.Rand, idx int, tier string) any {
 	if (in.Kind == "sts-unordered" || in.Kind == "sts-ordered" || in.Kind == "daemon") && in.Knob != nil && in.Knob.T != "int" {
 		in.Knob = mk(Int(r.Intn(in.N + 2)))
 	}
+	if chance(r, 30) {
+		sn := pick(r, 0, in.N/2, in.N+1, 2*in.N, 3*in.N+7, r.Intn(2*in.N+2))
+		in.StatusN = &sn
+	}
+	if in.Kind == "deploy-canary" {
+		// the knob is the canary Deployment's spec.replicas: what an earlier batch (possibly of a larger plan or a larger
+		// stable Deployment) left there, or anything
+		in.NoNeed = nil
+		switch r.Intn(4) {
+		case 0:
+			in.Knob = mk(Int(0))
+		case 1:
+			b := r.Intn(in.Cur + 1)
+			sv, _ := intstr.GetScaledValueFromIntOrPercent(ptrIOS(in.Plan[b].K8s()), in.N, true)
+			in.Knob = mk(Int(minInt(sv, in.N) + pick(r, 0, 0, 0, 1, 3)))
+		default:
+			in.Knob = mk(Int(r.Intn(in.N + 2)))
+		}
+	}
 	return in
 }
 
@@ -159,6 +182,17 @@ type batchCtrl interface {
 	CalculateBatchContext(release *v1beta1.BatchRelease) (*batchcontext.BatchContext, error)
 	UpgradeBatch(ctx *batchcontext.BatchContext) error
 }
+
+// canary style splits the two calls over two interfaces
+type canaryPair struct {
+	calc func(release *v1beta1.BatchRelease) (*batchcontext.BatchContext, error)
+	up   func(ctx *batchcontext.BatchContext) error
+}
+
+func (c canaryPair) CalculateBatchContext(release *v1beta1.BatchRelease) (*batchcontext.BatchContext, error) {
+	return c.calc(release)
+}
+func (c canaryPair) UpgradeBatch(ctx *batchcontext.BatchContext) error { return c.up(ctx) }
 
 func podTemplate() corev1.PodTemplateSpec {
 	return corev1.PodTemplateSpec{ObjectMeta: metav1.ObjectMeta{Labels: map[string]string{"app": "demo"}},
@@ -183,6 +217,7 @@ func (arithEngine) Run(inAny any) (res any) {
 		knob = ptrIOS(in.Knob.K8s())
 	}
 	var obj client.Object
+	var extra []client.Object
 	var readKnob func(cli client.Client) *IOS
 	var build func(cli client.Client) (batchCtrl, error)
 	fromIOSPtr := func(p *intstr.IntOrString) *IOS {
@@ -301,11 +336,52 @@ func (arithEngine) Run(inAny any) (res any) {
 			return bgdeployment.NewController(cli, key, apps.SchemeGroupVersion.WithKind("Deployment")).BuildController()
 		}
 		obj = d
+	case "deploy-canary":
+		d := &apps.Deployment{ObjectMeta: meta, Spec: apps.DeploymentSpec{Replicas: &n32, Selector: sel, Template: podTemplate(), Paused: true}}
+		kr := int32(0)
+		if knob != nil {
+			kr = knob.IntVal
+		}
+		canary := &apps.Deployment{ObjectMeta: metav1.ObjectMeta{Namespace: "ns", Name: "wl-canary", UID: "wl-canary-uid",
+			Labels: map[string]string{util.CanaryDeploymentLabel: "wl"}, Finalizers: []string{util.CanaryDeploymentFinalizer},
+			OwnerReferences: []metav1.OwnerReference{{APIVersion: "rollouts.kruise.io/v1beta1", Kind: "BatchRelease", Name: "br", UID: "br-uid", Controller: pointer.Bool(true)}}},
+			Spec: apps.DeploymentSpec{Replicas: &kr, Selector: sel, Template: podTemplate()}}
+		extra = append(extra, canary)
+		readKnob = func(cli client.Client) *IOS {
+			o := &apps.Deployment{}
+			_ = cli.Get(context.TODO(), types.NamespacedName{Namespace: "ns", Name: "wl-canary"}, o)
+			return fromInt32Ptr(o.Spec.Replicas)
+		}
+		build = func(cli client.Client) (batchCtrl, error) {
+			rc := canarydeployment.NewController(cli, key)
+			if _, err := rc.BuildStableController(); err != nil {
+				return nil, err
+			}
+			release := &v1beta1.BatchRelease{ObjectMeta: metav1.ObjectMeta{Namespace: "ns", Name: "br", UID: "br-uid"}}
+			cc, err := rc.BuildCanaryController(release)
+			if err != nil {
+				return nil, err
+			}
+			return canaryPair{calc: rc.CalculateBatchContext, up: cc.UpgradeBatch}, nil
+		}
+		obj = d
 	default:
 		obs.Err = "harness: unknown kind " + in.Kind
 		return obs
 	}
-	cli := &countingClient{Client: fake.NewClientBuilder().WithScheme(FullScheme()).WithObjects(obj).Build()}
+	sn32 := n32
+	if in.StatusN != nil {
+		sn32 = int32(*in.StatusN)
+	}
+	switch o := obj.(type) {
+	case *kruiseappsv1alpha1.CloneSet:
+		o.Status.Replicas = sn32
+	case *kruiseappsv1beta1.StatefulSet:
+		o.Status.Replicas = sn32
+	case *apps.Deployment:
+		o.Status.Replicas = sn32
+	}
+	cli := &countingClient{Client: fake.NewClientBuilder().WithScheme(FullScheme()).WithObjects(append([]client.Object{obj}, extra...)...).Build()}
 	release := &v1beta1.BatchRelease{ObjectMeta: metav1.ObjectMeta{Namespace: "ns", Name: "br", UID: "br-uid"}}
 	for _, b := range in.Plan {
 		release.Spec.ReleasePlan.Batches = append(release.Spec.ReleasePlan.Batches, v1beta1.ReleaseBatch{CanaryReplicas: b.K8s()})
@@ -328,6 +404,8 @@ func (arithEngine) Run(inAny any) (res any) {
 	switch in.Kind {
 	case "bg-deploy", "bg-clone":
 		obs.Target = IOSFrom(bc.DesiredSurge)
+	case "deploy-canary":
+		obs.Target = Int(int(bc.DesiredUpdatedReplicas))
 	default:
 		obs.Target = IOSFrom(bc.DesiredPartition)
 	}
